@@ -189,7 +189,7 @@ def project_fs(root: Path, sc: T.Dict[str, T.Any], ar: Archives) -> T.Dict[str, 
     return {'dir': sorted(marks), 'cache': cache_state('src', SRC_FN), 'pcache': cache_state('patch', PATCH_FN)}
 
 
-def run_cmd(root: Path, sc: T.Dict[str, T.Any], n: int, timeout: int) -> T.Tuple[bool, str]:
+def run_cmd(root: Path, sc: T.Dict[str, T.Any], n: int, timeout: int) -> T.Tuple[bool, bool, str]:
     env = {k: v for k, v in os.environ.items() if not k.startswith(('MESON', 'NINJA'))}
     env.update({'PYTHONPATH': str(SITE), 'C10_NOSLEEP': '1', 'LC_ALL': 'C.UTF-8', 'PYTHONDONTWRITEBYTECODE': '1'})
     meson = [common.PYTHON, str(common.REPO / 'meson.py')]
@@ -205,10 +205,17 @@ def run_cmd(root: Path, sc: T.Dict[str, T.Any], n: int, timeout: int) -> T.Tuple
                            text=True, errors='replace')
     except subprocess.TimeoutExpired as e:
         raise MachineryError(f'C10: {" ".join(cmd[2:])} timed out after {timeout}s') from e
-    ok = p.returncode == 0
-    if sc['cmd'] != 'download' and ok and 'C10WRAP end' not in p.stdout:
-        raise MachineryError('C10: meson setup succeeded without evaluating the build file:\n' + p.stdout[-1500:])
-    return ok, p.stdout
+    rc0 = p.returncode == 0
+    # "accepted": the command reports success *and* ran to its end (a Python traceback is a crash, whatever the status)
+    crashed = 'Traceback (most recent call last)' in p.stdout
+    if sc['cmd'] == 'download':
+        ok = rc0 and not crashed
+    else:
+        ok = rc0 and 'C10WRAP end' in p.stdout
+        if rc0 and not ok and not crashed:
+            raise MachineryError('C10: meson setup exited 0 without evaluating the build file and without a traceback:\n'
+                                 + p.stdout[-1500:])
+    return ok, rc0, p.stdout
 
 
 def run_scenario(args: T.Tuple[str, T.Dict[str, T.Any], int]) -> T.Dict[str, T.Any]:
@@ -220,9 +227,10 @@ def run_scenario(args: T.Tuple[str, T.Dict[str, T.Any], int]) -> T.Dict[str, T.A
         root = root.resolve()
         materialise(root, sc, ar)
         for n in (1, 2):
-            ok, out = run_cmd(root, sc, n, 600)
+            ok, rc0, out = run_cmd(root, sc, n, 600)
             o = project_fs(root, sc, ar)
             o['ok'] = ok
+            o['rc0'] = rc0
             obs.append(o)
             logs.append(out[-1500:])
     return {'id': cid, 'sc': sc, 'obs': obs, 'logs': logs}
@@ -246,7 +254,7 @@ def sc_key(sc: T.Dict[str, T.Any]) -> str:
 
 def signature(v: T.Dict[str, T.Any], sc: T.Dict[str, T.Any]) -> str:
     """Half-prepared directories are keyed by their cause (the stage that failed in run 1), everything else by scenario."""
-    if v['clause'] in ('SecondRunNeverAcceptsHalfPrepared', 'AcceptsHalfPrepared', 'FailedPatchLeavesNoDir'):
+    if v['clause'] in ('SecondRunNeverAcceptsHalfPrepared', 'AcceptsHalfPrepared', 'FailedPatchLeavesNoDir', 'ExitStatus'):
         shape = {'unpack': f",arch={sc['arch']}", 'patch': f",patch={sc['patch']},parch={sc['parch']}",
                  'diff': f",diff={sc['diff']}"}.get(v.get('stage', ''), '')
         return f"{v['clause']}@stage={v.get('stage')}{shape}"
